@@ -71,6 +71,15 @@ def search(ctx, N):
         q = float(rng.uniform(-50, 50))
         if abs(q) < 0.05 or abs(q - 1) < 0.05 or a == 0:
             continue
+        if k % 4 == 1:      # one term exactly or nearly zero: L = -a q^j
+            j = int(rng.integers(0, 3))
+            L = float(-Fraction(a) * Fraction(q) ** j) * (1.0 if k % 8 == 1 else 1 + 1e-9)
+            if abs(q) > 8:
+                q = float(rng.uniform(-3, 3)) or 0.5
+                if abs(q) < 0.05 or abs(q - 1) < 0.05:
+                    continue
+        if k % 4 == 2:      # small integers
+            L, a, q = float(rng.integers(-5, 6)), float(rng.integers(1, 6)) * float(rng.choice([-1, 1])), float(rng.choice([-3, -2, 2, 3, 0.5, -0.5]))
         e = [float(Fraction(L) + Fraction(a) * Fraction(q) ** i) for i in range(3)]   # correctly rounded terms
         with warnings.catch_warnings():
             warnings.simplefilter('ignore')
